@@ -85,13 +85,60 @@ func NormBase(path string) string {
 
 // Ident names an operation independently of the run: kind and normalised base
 // names of its paths. Builder.Finish renames in Go map order, so the position
-// in the log is not stable between runs, (Ident, IdentSeq) is.
-func (o Op) Ident() string {
-	s := o.Kind + ":" + NormBase(o.Path)
+// in the log is not stable between runs, (Ident, ordinal among equal Idents) is.
+func (o Op) Ident() string { return o.IdentIn("") }
+
+// IdentIn is Ident for runs that work in different scratch directories: a path
+// equal to dir is written ".", so that the identity does not contain the
+// directory's (random) name.
+func (o Op) IdentIn(dir string) string {
+	norm := func(p string) string {
+		if dir != "" && filepath.Clean(p) == filepath.Clean(dir) {
+			return "."
+		}
+		return NormBase(p)
+	}
+	s := o.Kind + ":" + norm(o.Path)
 	if o.Path2 != "" {
-		s += "->" + NormBase(o.Path2)
+		s += "->" + norm(o.Path2)
 	}
 	return s
+}
+
+// Point is an operation of a log together with its run-independent identity:
+// (ID, Nth) = IdentIn(dir) and the ordinal among the operations with that ID.
+type Point struct {
+	Op  Op
+	ID  string
+	Nth int
+}
+
+// Points numbers the operations of a log that ran in dir.
+func Points(dir string, log []Op) []Point {
+	seen := map[string]int{}
+	out := make([]Point, 0, len(log))
+	for _, op := range log {
+		id := op.IdentIn(dir)
+		out = append(out, Point{Op: op, ID: id, Nth: seen[id]})
+		seen[id]++
+	}
+	return out
+}
+
+// FailPoint returns a Config.FailAt that fails the operation (id, nth) of a
+// run in dir with err.
+func FailPoint(dir, id string, nth int, err error) func(Op) error {
+	seen := 0
+	return func(op Op) error {
+		if op.IdentIn(dir) != id {
+			return nil
+		}
+		seen++
+		if seen-1 == nth {
+			return err
+		}
+		return nil
+	}
 }
 
 // Config is what Start installs.
